@@ -368,12 +368,20 @@ def save_json(data, file):
     if isinstance(data, np.ndarray):
         data = data.tolist()
 
-    if os.path.splitext(file)[-1] == '.json':
-        with open(file, 'w') as f:
-            json.dump(data, f, cls=NumpyEncoder)
-    else:
-        with gzip.open(file, 'wb') as gz:
-            gz.write(json.dumps(data, cls=NumpyEncoder).encode('utf-8'))
+    # Write to a temporary file in the same directory and rename it over the
+    # target, so that an interrupted write never damages the existing file.
+    tmp_file = f'{file}.tmp{os.getpid()}'
+    try:
+        if os.path.splitext(file)[-1] == '.json':
+            with open(tmp_file, 'w') as f:
+                json.dump(data, f, cls=NumpyEncoder)
+        else:
+            with gzip.open(tmp_file, 'wb') as gz:
+                gz.write(json.dumps(data, cls=NumpyEncoder).encode('utf-8'))
+        os.replace(tmp_file, file)
+    finally:
+        if os.path.exists(tmp_file):
+            os.remove(tmp_file)
 
 
 def get_label(name: str, parameters: Dict[str, Any]) -> str:
